@@ -355,6 +355,13 @@ theorem sync_only_consumers_known :
       ["batch", "count", "last", "length", "min", "max", "random", "reverse", "sort", "truncate", "urlencode", "urlize"] ∧
     (testConsumers.filter (!·.2)).map (·.1) = ["sequence", "iterable", "in"] := by decide
 
+/-- the places where the code generator awaits (read from compiler.py): attribute and item access, filter and test calls,
+    calls (sandboxed or not), the recursive loop call and the template lookup of an import.  The translation validation
+    requires an await at each of them; a site that disappears from the compiler breaks this. -/
+theorem await_sites_known :
+    awaitWrapped = ["environment.getattr", "environment.getitem", "<filter>", "<test>", "environment.call", "context.call"] ∧
+    awaitBare = ["environment.get_template", "loop"] := by decide
+
 /-! ### full-strength statements that do NOT hold (known findings; negations proved in Findings/F17.lean) -/
 
 /-- what "a producer's result can be handed to any consumer in async mode" needs: every filter/test that takes an iterable
